@@ -428,6 +428,23 @@ def casekey(t, u):
             u = ((u ^ m) - m) & M64
     return u & M64
 
+NARROW = ['b', 'c', 'sc', 'uc', 's', 'us']
+
+
+def outvals(r, nt):
+    """int constants OUTSIDE the range of the narrow type `nt` that agree with some value of `nt` in its low bits: as
+    case constants they are converted to the PROMOTED type of the controlling expression (int), never to `nt`"""
+    span = 256 if SIZE[nt] == 1 else 65536
+    lo, hi = _range(nt)
+    out = []
+    for base in [lo, hi, 0, 1, 2, 65, r.randint(lo, hi), r.randint(lo, hi)]:
+        for m in [1, -1, 2, 3, 255 if span == 256 else 5, -7]:
+            k = base + span * m
+            if -(1 << 31) <= k < (1 << 31) and not lo <= k <= hi and k not in out:
+                out.append(k)
+    return out
+
+
 CNT_TYS = ['i', 'u', 'l', 'ul', 's', 'us', 'uc', 'sc', 'c', 'll', 'ull']
 
 
@@ -860,17 +877,53 @@ class Gen2:
     def switch(self, scope, depth, inloop):
         """switch (e) { case K: { ... } [break;] ... [default: ...] }"""
         r = self.rng
-        src, e = self.expr(scope, r.randrange(0, 2), impure=True)
+        pre, forced, avoid, nt = [], [], None, None
+        xn = r.random()
+        if xn < 0.16:
+            # a controlling expression of a narrow type whose value is known, and case constants outside the range of
+            # that type which agree with the value in the low bits: none of them is selected (6.8.4.2p5: the constants
+            # are converted to the PROMOTED type)
+            nt = r.choice(NARROW)
+            lo, hi = _range(nt)
+            v0 = r.choice([hi, 0, 1, min(hi, 65), r.randint(0, hi), r.randint(0, hi)])
+            k = self.newvar(nt)
+            scope.append(k)
+            self.init.add(k)
+            self.count('decl-init')
+            pre = [('%s p%d = %d;' % (CNAME[nt], k, v0), '(decl %d %s %s)' % (k, nt, sx(conv(('c', 'i', v0), nt))))]
+            src = ('P', k)
+            e = parse(src, self.vtys)
+            span = 256 if SIZE[nt] == 1 else 65536
+            forced = [v0 + span * r.choice([1, -1, 2, 3, -5, 7])]
+            avoid = v0
+            self.count('switch-narrow')
+        elif xn < 0.32:
+            nt = r.choice(NARROW)
+            isrc, _ = self.expr(scope, r.randrange(0, 2), impure=True)
+            src = ('C', nt, isrc)
+            e = parse(src, self.vtys)
+            ov = outvals(r, nt)
+            forced = r.sample(ov, min(len(ov), r.randrange(1, 4)))
+            self.count('switch-narrow')
+        else:
+            src, e = self.expr(scope, r.randrange(0, 2), impure=True)
         pt = promote(ty(e))
         e = conv(e, pt)                                   # exprpromote
         self.count('switch')
         ngroups = r.randrange(1, 5)
-        vals, keys = [], set()
-        for v in r.sample(CASEVALS, len(CASEVALS)):
+        vals, keys, nkeys = [], set(), set()
+        if avoid is not None:
+            nkeys.add(avoid & M64)
+        for v in forced + r.sample(CASEVALS, len(CASEVALS)):
             k = casekey(pt, v & M64)
-            if k not in keys:
+            # under a narrow controlling type the constants also differ in the low bits: a compiler that converted them
+            # to the narrow type would select a wrong case (rather than reject the duplicate)
+            nk = casekey('uc' if nt == 'b' else nt, v & M64) if nt else None
+            if k not in keys and not (nt and nk in nkeys):
                 keys.add(k)
+                nkeys.add(nk)
                 vals.append(v)
+        vals.reverse()                                    # the forced constants are used first
         saved = set(self.init)
         cparts, tparts = [], []
         dpos = r.randrange(0, ngroups + 2)                # position of `default` (beyond the groups: none)
@@ -908,8 +961,8 @@ class Gen2:
             cparts.append(bc)
             tparts.append(bt)
         self.init = saved
-        return [('switch (%s) { %s }' % (ctext(src), ' '.join(cparts)),
-                 '(switch %s (block %s))' % (sx(e), ' '.join(tparts)))]
+        return pre + [('switch (%s) { %s }' % (ctext(src), ' '.join(cparts)),
+                       '(switch %s (block %s))' % (sx(e), ' '.join(tparts)))]
 
     def stmts(self, scope, depth, inloop, n):
         """n statements appended to the current scope; stops after a jump statement"""
